@@ -7,6 +7,8 @@ import IdenaModel.Drivers.Util
     flips <p3>              GetFlipsDistribution with its permutation                           → short <ll> long <ll>
     solve                   getFlipsToSolve of every candidate, both sessions                    → ts <ll> tl <ll>
     rcp <a>                 PrivateEncryptionKeyCandidates of candidate a                        → err | csv
+    badkeys <csv|->         candidates whose stored PubKey does not parse (after `new`)          → ok
+    pkg <a>                 layout of a's key package: per position the recipient that opens it, `x` = empty placeholder
     key <c> <a>             package index of c in a's package + extraction + decryption          → idx=<i|-1> ok|no
 
 List of lists: `|`-separated, a list is csv, the empty list is `_`, no lists at all is `-`.
@@ -21,6 +23,7 @@ structure St where
   cpa : List (List Nat) := []
   short : Option (List (List Nat)) := none
   long : List (List Nat) := []
+  bad : List Nat := []      -- candidates whose stored public key does not parse
 
 def parseNat (s : String) : Option Nat := if s.isEmpty then none else s.toNat?
 
@@ -55,6 +58,17 @@ def step (s : St) (line : String) : St × String :=
     | some q, some fl =>
       ({ q := q, fl := fl }, s!"ok n={fl.length} authors={(authorsIndexes fl).length} flips={fl.sum}")
     | _, _ => (s, "bad-op")
+  | ["badkeys", l] =>
+    match (if l = "-" then some [] else parseCsv l) with
+    | some l => ({ s with bad := l }, "ok")
+    | none => (s, "bad-op")
+  | ["pkg", a] =>
+    match s.apc, parseNat a with
+    | some apc, some a =>
+      let r : Result := ⟨apc, s.cpa, [], []⟩
+      let pkg := keyPackage idealEnc (fun c => s.bad.contains c) r a 77
+      (s, if pkg.isEmpty then "_" else ",".intercalate (pkg.map fun e => match e with | some e => toString e.1 | none => "x"))
+    | _, _ => (s, "bad-op")
   | ["authors", p1, p2] =>
     match parseLL ";" p1, parseLL ";" p2 with
     | some p1, some p2 =>
@@ -86,7 +100,7 @@ def step (s : St) (line : String) : St × String :=
     | some apc, some c, some a =>
       let r : Result := ⟨apc, s.cpa, [], []⟩
       let idx := match packageIndex r c a with | some i => toString i | none => "-1"
-      let got := obtainKey idealEnc idealDec r c a 77
+      let got := obtainKey idealEnc idealDec (fun c => s.bad.contains c) r c a 77
       (s, s!"idx={idx} " ++ (if got = some 77 then "ok" else "no"))
     | _, _, _ => (s, "bad-op")
   | _ => (s, "bad-op")
